@@ -32,6 +32,7 @@ theorem npV_dimsN : dimsN npV = [2, 1] := npW_dimsN 2 [1]
 theorem npV_dims : (dimsN npV).sum = npV.m := npW_dims 2 [1]
 
 theorem npV_rows : RowsOK (toProblem npV) := by
+  apply RowsOK.of_nodup
   intro i hi
   have : i = 0 ∨ i = 1 ∨ i = 2 := by have : i < 3 := hi; omega
   rcases this with rfl | rfl | rfl <;> simp [toProblem, npV, Array.getD]
